@@ -34,10 +34,15 @@ func Parse(tmpl string) (Compiler, error) {
 
 	// The parser accepts a "/" token in place of any other punctuation, so an empty path segment
 	// would silently become a wildcard ("/a//" would route like "/a/*/*").
+	var inFieldPath, afterAssign bool
 	for i, t := range tokens {
-		if t == "/" && (i == 0 || tokens[i-1] == "/" || tokens[i-1] == "=") {
+		if t == "/" && (i == 0 || tokens[i-1] == "/" || afterAssign) {
 			return template{}, InvalidTemplateError{tmpl: tmpl, msg: "empty path segment"}
 		}
+
+		// only the "=" which ends a field path is punctuation, anywhere else it is a literal
+		afterAssign = inFieldPath && t == "="
+		inFieldPath = t == "{" || inFieldPath && t != "=" && t != "}"
 	}
 
 	p := parser{tokens: tokens}
